@@ -7,6 +7,10 @@ from simkit import common, hostgen, host, world, shims, kernel
 HIT_SRC = '''
 G_HOST = 4242
 G_LIST = [1, 2, 3]
+val = -999
+name = 'GLOBALNAME'
+flag = 'global-flag'
+BIG = [[[[i, j, k] for k in range(10)] for j in range(10)] for i in range(10)]
 
 class HostBase(BaseException):
     pass
